@@ -32,6 +32,9 @@ type c28Scenario struct {
 	// reference server (c28_stub12.go): 1 = zero-length NewSessionTicket, 2 = fresh ticket, 3 = no ticket extension
 	StubResume int    `json:"stub_resume,omitempty"`
 	StubHint   uint32 `json:"stub_hint,omitempty"`
+	// FPSid >= 0: the client sends a fingerprinted ClientHello (ClientFingerprintConfiguration) whose session id has
+	// this length; the log must still show what went over the wire
+	FPSid int `json:"fp_sid"`
 	Tape   []int  `json:"tape,omitempty"`
 }
 
@@ -69,6 +72,14 @@ func genC28(seed uint64, tier string) any {
 	if r.Chance(1, 6) {
 		sc.CutAt = 1 + r.Intn(5000)
 		sc.Resume = false
+	}
+	sc.FPSid = -1
+	if r.Chance(1, 10) {
+		sc.FPSid = []int{0, 1, 8, 16, 31, 32}[r.Intn(6)]
+		sc.Resume, sc.Decline, sc.CutAt = false, false, 0
+		sc.Client.Cache = false
+		sc.Server.MinVersion, sc.Server.MaxVersion, sc.Server.Suites, sc.Server.KeyKind, sc.Server.KeyKind2, sc.Server.Curves = 0, 0, nil, "rsa", "", nil
+		return sc
 	}
 	if r.Chance(1, 8) {
 		// a TLS 1.2 AES-GCM session, resumed against a conforming server that is not zcrypto's
@@ -194,6 +205,18 @@ func execC28(t *testing.T, scAny any, keepLog bool) *Outcome {
 		s := run.S
 		scfg := serverConfig(sc.Server, s, run.R.Derive("srv-rand"))
 		ccfg := clientConfig(sc.Client, s, run.R.Derive("cli-rand"))
+		if sc.FPSid >= 0 {
+			ccfg.ForceSuites = true
+			ccfg.ClientFingerprintConfiguration = &tls.ClientFingerprintConfiguration{
+				HandshakeVersion:   vTLS12,
+				SessionID:          run.R.Derive("fp-sid").Bytes(sc.FPSid),
+				CipherSuites:       []uint16{0xc02f, 0xc013, 0x009c, 0x002f, 0x0035},
+				CompressionMethods: []uint8{0},
+				Extensions: []tls.ClientExtension{&tls.SNIExtension{Autopopulate: true}, &tls.SupportedCurvesExtension{Curves: []tls.CurveID{tls.X25519, tls.CurveP256}},
+					&tls.PointFormatExtension{Formats: []uint8{0}}, &tls.SignatureAlgorithmExtension{SignatureAndHashes: []uint16{0x0401, 0x0501, 0x0201}}, &tls.SecureRenegotiationExtension{}},
+			}
+			o.count("probe.fingerprinted_client_hello", 1)
+		}
 		var keylog bytes.Buffer
 		ccfg.KeyLogWriter = &keylog
 		cache := &simCache{cur: map[string]*tls.ClientSessionState{}}
@@ -821,7 +844,9 @@ func shrinkC28(scAny any) []any {
 	var out []any
 	for _, c := range shrinkC24(base) {
 		b := c.(*c24Scenario)
-		out = append(out, &c28Scenario{Seed: sc.Seed, Client: b.Client, Server: b.Server, Net: b.Net, Resume: b.Resume, CutAt: sc.CutAt, Tape: b.Tape})
+		n := *sc
+		n.Client, n.Server, n.Net, n.Resume, n.Tape = b.Client, b.Server, b.Net, b.Resume, b.Tape
+		out = append(out, &n)
 	}
 	if sc.CutAt > 0 {
 		c := *sc
@@ -845,7 +870,7 @@ func init() {
 		Assume: []string{"for a HelloRetryRequest flow the logged ServerHello may be either the HelloRetryRequest or the final ServerHello", "algorithm names are compared by family (rsa/pkcs1v15/rsapss = RSA) and hash name; 'intrinsic' is accepted for RSA-PSS"},
 		FaultKinds: []string{"fault.connection_cut", "probe.clienthello_compared", "probe.serverhello_compared", "probe.certs_compared", "probe.skx_compared", "probe.skx_sigalg_compared", "probe.ckx_compared", "probe.ticket_compared",
 			"probe.clienthello_ticket_logged", "probe.master_secret_vs_keylog", "probe.master_from_premaster", "probe.finished_compared", "probe.resumed_log_checked", "probe.scts_compared", "fault.ticket_declined_by_server",
-			"fault.resumed_by_reference_server_mode_1", "fault.resumed_by_reference_server_mode_2", "fault.resumed_by_reference_server_mode_3", "probe.stub_resume_refused_by_client", "probe.stub_resume_not_started"},
+			"fault.resumed_by_reference_server_mode_1", "fault.resumed_by_reference_server_mode_2", "fault.resumed_by_reference_server_mode_3", "probe.stub_resume_refused_by_client", "probe.stub_resume_not_started", "probe.fingerprinted_client_hello"},
 		NotInjected: "adversarial wire faults are not injected (the log of a corrupted handshake is exercised for panics under C32); only a clean cut of the connection",
 		Gen:         genC28, New: func() any { return &c28Scenario{} }, Exec: execC28, Shrink: shrinkC28,
 		QuickRuns: 8000, ThoroughRuns: 600000,
